@@ -292,6 +292,11 @@ func runGraph(prop string, mix opMix) func(s *Sim) {
 					q := prev[wl.Draw(len(prev))]
 					pts[0].Type, pts[0].Key, pts[0].Time = q.Type, q.Key, q.Time
 				}
+				if wl.Chance(1, 6) {
+					// a point of type tombstone under another key is an ordinary point: only key "0" says whether the edge is
+					// deleted (value 0, so that no reading of it can mean "deleted")
+					pts[0].Type, pts[0].Key, pts[0].Value = data.PointTypeTombstone, []string{"1", "a"}[wl.Draw(2)], 0
+				}
 				lastEdgePts[e] = append(data.Points(nil), pts...)
 				addOp(fmt.Sprintf("edge points %s/%s [%s]", e[0], e[1], shortPts(pts)), func(a *Actor) error {
 					return client.SendEdgePoints(a.Nc, e[1], e[0], append(data.Points(nil), pts...), true)
